@@ -614,9 +614,17 @@ class C07(C01):
             if model_kind(c["kind"]) != c["kind"]:
                 return canon_oack(run_impl_custom(c))
             return canon_oack(T.run_impl(c))
-        except Exception:      # noqa: BLE001
+        except Exception as ex:      # noqa: BLE001
             # the constructor of _TftpReadRequest raised: it runs in the request-port thread, where this is the
-            # internal-error path (nothing is sent, an exception is logged) - a concrete failing input, not a crash
+            # internal-error path (nothing is sent, an exception is logged) - a concrete failing input, not a crash.
+            # Only exceptions raised INSIDE the code under test count; an exception raised by the harness itself (the
+            # module has no such attribute, the constructor's signature has changed) is a harness problem and must
+            # not be turned into a failing input
+            tb = ex.__traceback__
+            while tb.tb_next is not None:
+                tb = tb.tb_next
+            if os.path.join("vinegar", "") not in tb.tb_frame.f_code.co_filename:
+                raise
             return [[4]]
 
     def line(self, c, obs):
